@@ -1,14 +1,25 @@
 package props
 
 import (
+	"io"
 	"os"
 	"testing"
+
+	"github.com/semihalev/zlog/v2"
 
 	"verifsim/kit"
 )
 
 // TestWorker is the single entry point of the simulation binary: the runner starts one
 // process per chunk of scenarios (or per replay) and directs it through VERIF_* variables.
+func init() {
+	// sdns logs through zlog's process-wide default logger; the simulation discards it.
+	l := zlog.NewStructured()
+	l.SetWriter(zlog.NewTerminalWriter(io.Discard))
+	l.SetLevel(zlog.LevelError)
+	zlog.SetDefault(l)
+}
+
 func TestWorker(t *testing.T) {
 	if os.Getenv("VERIF_PROP") == "" {
 		t.Skip("VERIF_PROP not set")
